@@ -117,34 +117,28 @@ InputFields(r) == ParamFields(r)
 
 HeadExprAt(r, f) == r.head[CHOOSE i \in 1..Len(r.head) : r.head[i].f = f].e
 
-(* A call of an injectible rule that supplies the fields `supplied` and uses *)
-(* the fields `referenced` is computable: every referenced parameter is      *)
-(* supplied, every other referenced field only needs variables the body      *)
-(* binds or supplied parameters.                                             *)
-CallOK(r, supplied, referenced) ==
+(* A call of an injectible rule whose fields `ground` are given as values and *)
+(* that uses the fields `referenced`: every referenced field must be          *)
+(* computable from what the body binds and from the given plain-variable      *)
+(* parameters.                                                                *)
+CallOK(r, ground, referenced) ==
   LET avail == BindableBody(r.body)
-               \cup {HeadExprAt(r, f).name : f \in supplied \cap ParamFields(r)}
-  IN \A f \in referenced :
-       IF f \in ParamFields(r) THEN f \in supplied
-       ELSE DVE(HeadExprAt(r, f)) \subseteq avail
+               \cup {HeadExprAt(r, f).name : f \in {g \in ground : HeadExprAt(r, g).k = "var"}}
+  IN \A f \in referenced : DVE(HeadExprAt(r, f)) \subseteq avail
 
 Ready(c, bound, V, ctx) ==
   CASE c.k = "atom"  -> \* an argument may use variables bound by other arguments of the same atom
                         LET own == {c.args[i].e.name : i \in {j \in 1..Len(c.args) :
                                                                BareUnbound(c.args[j].e, bound)}}
-                            inputs == IF ctx.preds[c.p].inline
-                                      THEN InputFields(ctx.preds[c.p].rules[1]) ELSE {}
+                            inl == ctx.preds[c.p].inline
+                            gnd == {c.args[i].f : i \in {j \in 1..Len(c.args) :
+                                      ~BareUnbound(c.args[j].e, bound)
+                                      /\ Ground(c.args[j].e, bound, V)}}
                             fs == {c.args[i].f : i \in 1..Len(c.args)}
-                        IN /\ ctx.preds[c.p].inline => CallOK(ctx.preds[c.p].rules[1], fs, fs)
+                        IN /\ inl => CallOK(ctx.preds[c.p].rules[1], gnd, fs)
                            /\ \A i \in 1..Len(c.args) :
-                             (BareUnbound(c.args[i].e, bound) /\ c.args[i].f \notin inputs)
-                             \/ (~BareUnbound(c.args[i].e, bound)
-                                 \* a parameter of an injectible predicate is needed
-                                 \* before the call, other arguments may use variables
-                                 \* bound by this very atom
-                                 /\ Ground(c.args[i].e,
-                                           IF c.args[i].f \in inputs THEN bound
-                                           ELSE bound \cup own, V))
+                                BareUnbound(c.args[i].e, bound)
+                                \/ Ground(c.args[i].e, bound \cup own, V)
     [] c.k = "cmp"   -> Ground(c.e, bound, V)
     [] c.k = "unify" -> \/ Ground(c.l, bound, V) /\ Ground(c.r, bound, V)
                         \/ BareUnbound(c.l, bound) /\ Ground(c.r, bound, V)
